@@ -37,7 +37,7 @@ GEN_SPEC = {"imports": ["From God Require Import C01.GenEnv."], "items": [
      "calls": {"db.accept": "f_accept_fn"}},
     {"kind": "func", "file": "lib/breaker/breaker.go", "name": "defaultAcceptable", "as": "default_acceptable"},
 ]}
-COQ_FILES = ["theories/C01/Props.v", "theories/C01/Link.v", "theories/C01/Proofs.v"]
+COQ_FILES = ["theories/C01/Props.v", "theories/C01/Link.v", "theories/C01/Proofs.v", "theories/C01/Registry.v"]
 QUICK_N = 300
 THOROUGH_N = 8000
 SHARD = 100
@@ -51,7 +51,10 @@ RULE = ("breaker histories of 20-140 events over 1-3 registry names: Begin(kind 
         "written, WriteHeader+Write+Flush+Write, Write+Flush+Write, Flush only, panic under RecoverHandler) sustained 200 "
         "requests each through one BreakerHandler with WithCodeResponseWriter.Code probed, server UnaryBreakerInterceptor "
         "(inside UnaryCrashInterceptor) and client BreakerInterceptor with every gRPC code 0..16 returned and panic(string|"
-        "error), 200 calls each; non-trivial = a history with at least one rejection and "
+        "error), 200 calls each; registry stream: 6 cases (thorough 40) x 200 fresh names, G = 2..8 goroutines making "
+        "their first use of the name together through Get / Do / DoWithAcceptable with the all-miss interleaving forced "
+        "(driver holds the write lock until all are parked in RLock), then 50 failures through the first handle and probes "
+        "through the last handle and through Do(name); non-trivial = a history with at least one rejection and "
         "one completed call, or any predicate case; distinct = distinct canonical case JSON")
 TRUSTED = ["IEEE-754 binary64 division of the Go build = Coq PrimFloat (drop ratio); rand.Float64 = Int63/2^63 with the "
            "scripted source returning m<<10, so the coin is exactly m/2^53",
@@ -190,8 +193,22 @@ def pred_cases(rng, tier):
     return out
 
 
+def reg_cases(rng, tier):
+    """registry stream: FRESH names, G = 2..8 goroutines make their first use of a name together (Get / Do /
+    DoWithAcceptable by a cyclic pattern), the driver forcing all of them to miss under RLock"""
+    k = {"quick": 6, "search": 6}.get(tier, 40)
+    out = []
+    for i in range(k):
+        g = [2, 3, 4, 8, 5, 6, 7][i % 7] if i < 7 else rng.randint(2, 8)
+        pat = [rng.choice([0, 0, 1, 2]) for _ in range(rng.randint(3, 7))]
+        if 0 not in pat[:2]:
+            pat[0] = 0
+        out.append({"kind": "r", "n": 200 if tier != "search" else 60, "g": g, "pattern": pat})
+    return out
+
+
 def generate(rng, tier, n):
-    cases = pred_cases(rng, tier) if tier in ("quick", "thorough") else []
+    cases = (pred_cases(rng, tier) if tier in ("quick", "thorough") else []) + reg_cases(rng, tier)
     while len(cases) < n:
         cases.append(gen_history(rng))
     return cases
@@ -205,6 +222,7 @@ def drive(cases, tier):
     obs = [None] * len(cases)
     logs = []
     groups = [("b", None, "./lib/breaker"), ("h", None, "./api/handler")] + [("p", w, PKG[w]) for w in sorted(PKG)]
+    groups.append(("r", None, "./lib/breaker"))
     for kind, which, pkg in groups:
         idx = [i for i, c in enumerate(cases) if c["kind"] == kind and (which is None or c["which"] == which)]
         if not idx:
@@ -212,6 +230,8 @@ def drive(cases, tier):
         # the sqlx / redis / api-handler packages also hold other properties' drivers: ours is TestVerifDriverC01 there
         run = "^TestVerifDriverC01$" if pkg in ("./lib/store/sqlx", "./lib/store/redis", "./api/handler",
                                                "./rpc/internal/serverinterceptors", "./rpc/internal/clientinterceptors") else "^TestVerifDriver$"
+        if kind == "r":
+            run = "^TestVerifDriverReg$"
         o, lg = run_driver(pkg, [cases[i] for i in idx], name="C01%s%s_%s" % (kind, "" if which is None else which, tier),
                            timeout=600, run=run)
         logs.append(lg[-1500:])
@@ -227,6 +247,8 @@ OUT = ["OK", "AcceptableErr", "UnacceptableErr", "Panics"]
 
 
 def encode(case, obs):
+    if case["kind"] == "r":
+        return "RCase %s" % clist([clist([cZ(v) for v in r]) for r in obs.get("rows", [])])
     if case["kind"] == "h":
         return "HCase %s %s %s %s" % (cnat(case["shape"]), cZ(case["arg"]), cZ(obs.get("code", -1)), cbool(bool(obs.get("ok"))))
     if case["kind"] == "p":
@@ -254,6 +276,8 @@ def encode(case, obs):
 
 
 def nontrivial(case, obs):
+    if case["kind"] == "r":
+        return any(r[6] == 1 for r in obs.get("rows", []))
     if case["kind"] in ("p", "h"):
         return True
     rows = obs.get("rows", [])
@@ -261,6 +285,10 @@ def nontrivial(case, obs):
 
 
 def bucket(case, obs):
+    if case["kind"] == "r":
+        rows = obs.get("rows", [])
+        return ["kind:r", "reg:g=%d" % case["g"], "reg:names=%d" % len(rows), "reg:forced=%d" % sum(r[6] for r in rows),
+                "reg:distinct>1=%d" % sum(1 for r in rows if r[2] > 1)]
     if case["kind"] == "h":
         return ["kind:h", "shape:%d" % case["shape"], "cutoff:%s" % (not obs.get("ok"))]
     if case["kind"] == "p":
@@ -272,6 +300,11 @@ def bucket(case, obs):
 
 
 def explain(case, obs):
+    if case["kind"] == "r":
+        return ("concurrent FIRST use of a fresh breaker name by several goroutines (all held at Get's RLock, then released) "
+                "did not yield one breaker per name: handles differ, outcomes recorded by Do(name) are missing from the "
+                "registered breaker, or 50 failures recorded through one handle are not seen through another handle / "
+                "through Do(name) (no rejection at coin 0) (c01_registry_one_breaker_per_name)")
     if case["kind"] == "h":
         return ("200 requests answered with one response shape through one BreakerHandler: a shape whose status is below 500 "
                 "(explicit, or the implicit 200 of an unwritten / Write-only / streamed response) was cut off with 503, or a "
